@@ -314,7 +314,7 @@ func init() {
 					return fw.Inconcl("could not record hint sites: " + c.Str("err"))
 				case "shadow", "shadowgadgets":
 					var mk func() frontend.Circuit
-					minSites, minEq := 20, 10
+					minSites, minEq := 10, 10
 					if c.Kind == "shadow" {
 						in := getInst(c.Str("inst"))
 						if k := c.Int("k"); k < in.K {
